@@ -49,8 +49,11 @@ type Marshallable interface {
 // is mildly discouraged.
 func ConvertToParagraph(incoming interface{}) (*Paragraph, error) {
 	data := reflect.ValueOf(incoming)
-	if data.Type().Kind() != reflect.Ptr {
+	if !data.IsValid() || data.Type().Kind() != reflect.Ptr {
 		return nil, fmt.Errorf("Can only Decode a pointer to a Struct")
+	}
+	if data.IsNil() {
+		return nil, fmt.Errorf("Can't Decode a nil pointer")
 	}
 	return convertToParagraph(data.Elem())
 }
@@ -290,7 +293,13 @@ func (e *Encoder) Encode(incoming interface{}) error {
 // Top-level Encode reflect dispatch {{{
 
 func (e *Encoder) encode(data reflect.Value) error {
+	if !data.IsValid() {
+		return fmt.Errorf("Can't encode nil")
+	}
 	if data.Type().Kind() == reflect.Ptr {
+		if data.IsNil() {
+			return fmt.Errorf("Can't encode a nil pointer")
+		}
 		return e.encode(data.Elem())
 	}
 
